@@ -143,6 +143,28 @@ CHECKS["C07"] = dict(
          "satisfied and saturated; actions and IN_SEQUENCE on it do not compile.",
     design_ref="DESIGN.md section 4, C07", note="Which calls it is the candidate for is C01/C02.")
 
+CHECKS["C10"] = dict(
+    technique="truth tables obtained by interpreting each matcher's extracted return expression / fold over all "
+              "valuations of a finite abstraction (TABLE), factory-predicate-printer agreement, dominance of null guards",
+    text="Each scalar matcher and combinator is a one-expression predicate; its table over ord(x,v) in {<,=,>}, "
+         "booleans and null/non-null equals the mathematical predicate for eq/ne/lt/le/gt/ge, _, ANY, !m, *m (no "
+         "dereference of null), any_of/all_of/none_of (1..3 operands, uniform pack expansion), MEMBER_IS and re() "
+         "(non-null and found over [begin,end) with the stored flags; the empty string is a string); operands reach "
+         "the predicate as (actual, stored...) for typed and duck-typed matchers alike. This is the full predicate-"
+         "level property; the user type's own operators and std::regex_search are opaque.",
+    design_ref="DESIGN.md section 4, C10", note="Nesting follows from compositionality: every combinator's table is "
+    "over the results of its operands' matches().")
+CHECKS["C13"] = dict(
+    technique="who-may-write on the monitor slot, typestate automata over ~deathwatched / ~lifetime_monitor / notify, "
+              "return-value data-flow of the queries",
+    text="The monitor slot is written only by operator=(T*) (called only from trompeloeil_expect_death) and starts "
+         "null in every constructor; copy/move construction does not read the source and copy/move assignment does "
+         "not write; a dying object notifies a live requirement exactly once and reports nothing itself, or reports "
+         "exactly one non-fatal unexpected destruction; a released requirement reports one non-fatal 'still alive' "
+         "and detaches iff its object is alive, and never touches the slot of a dead object; notify marks the "
+         "requirement died and counts the destruction on every path.",
+    design_ref="DESIGN.md section 4, C13", note="Several simultaneous requirements on one object: known finding (F12).")
+
 NOT_APPLICABLE = {}
 
 
